@@ -186,7 +186,19 @@ func c08direct(x *mc.X, full bool) {
 	own := ownLimits()
 	out := filepath.Join(tmpDir("c08"), "r.json")
 	defer os.RemoveAll(filepath.Dir(out))
-	r := &forkexec.Runner{Args: []string{probe("report"), "--outfile=" + out, "--nofds"}, Env: []string{}, Files: stdioNull(), RLimits: l.PrepareRLimit()}
+	// the record is the caller's: preparing the list must not write into it (a reused record would carry derived values
+	// into the next run), and preparing twice must give the same list
+	before := l
+	list := l.PrepareRLimit()
+	if l != before {
+		x.Failf("C08/prepare-writes-into-record", "PrepareRLimit changed the caller's record from %+v to %+v", before, l)
+		l = before
+	}
+	if again := l.PrepareRLimit(); fmt.Sprint(again) != fmt.Sprint(list) {
+		x.Failf("C08/prepare-not-repeatable", "record %+v: a second PrepareRLimit gives %v, the first gave %v", before, again, list)
+	}
+	l = before
+	r := &forkexec.Runner{Args: []string{probe("report"), "--outfile=" + out, "--nofds"}, Env: []string{}, Files: stdioNull(), RLimits: list}
 	pid, err := r.Start()
 	if err != nil {
 		x.Note("launch-error", err.Error())
